@@ -103,4 +103,10 @@ TEXT = {
   "note": "partial on runtime aspects: scheduling and wall-clock are measured (monitor), not proved; a neighbor call that itself never returns keeps its goroutine until the transport times out",
   "technique": "Coq proof (finite LTS of the fetch protocol by exhaustive case analysis lifted to rounds by induction; inversion of update) + differential correspondence under a fault matrix + goroutine/time monitors",
  },
+ "C16": {
+  "level": "Generic theorems, proved once for any table: in an abstract reader/writer-mutex semantics with any number of threads, a lock held exclusively excludes every other holder; two accesses that share a lock, one of them exclusively, are never simultaneously enabled; if every racy pair of a table is in an excluded list then any two simultaneously enabled conflicting accesses are in that list; an acyclic lock-order graph yields a rank, and programs that acquire locks in increasing rank never deadlock (n threads). Two table theorems are re-checked on every run against the access table and lock-order edges regenerated from /repo's source: every racy pair is a listed known finding (only Engine.started remains), and the lock order is acyclic. The dynamic part runs the node's activities concurrently under the race detector and checks the quiescent state. Operation-level interleavings are not covered by a theorem: partial.",
+  "ref": "DESIGN.md section 4, C16",
+  "note": "partial: lock discipline + deadlock freedom over an extracted table (sound relative to the translator's syntactic rules); no theorem about stale reads across lock releases; Go memory model not formalised",
+  "technique": "Coq proof (Eraser-style lock-discipline and lock-order theorems over an abstract mutex semantics) instantiated on a table regenerated from source by a go/ast translator + race-detector stress runs",
+ },
 }
